@@ -134,7 +134,7 @@ def mag_sets_equal(sel_vals, all_vals, k, which, rtol=1e-6):
     else:
         want = mags[:k]
         border = (mags[k - 1], mags[k]) if k < n else None
-    near = border is not None and abs(border[1] - border[0]) <= 1e-3 * max(1.0, abs(border[1]))
+    near = border is not None and abs(border[1] - border[0]) <= 1e-3 * abs(border[1])
     got = np.sort(np.abs(np.asarray(sel_vals)))
-    ok = len(got) == k and np.allclose(got, want, rtol=rtol, atol=rtol * max(1.0, float(mags.max()) if n else 1.0))
+    ok = len(got) == k and np.allclose(got, want, rtol=rtol, atol=rtol * (float(mags.max()) if n else 1.0))
     return ok, near
